@@ -21,7 +21,8 @@ def fuzz_src():
 
 # name -> (Aiken expression, value type, thresholds worth probing, traits)
 # traits: const (ignores the PRNG), dep (data-dependent number of choices), none_on_replay
-# (a shrunk choice sequence may be rejected with None), err (the fuzzer may crash), lenient
+# (a shrunk choice sequence may be rejected with None), err (the fuzzer may crash), lenient,
+# slow (thorough tier only)
 FUZZERS = {
     "int200": ("fuzz.int_between(0, 200)", "int", [0, 1, 10, 50, 150, 200, 201], ""),
     "int_wide": ("fuzz.int_between(-50, 1000)", "int", [-50, -49, 0, 300, 999, 1001], ""),
@@ -46,7 +47,7 @@ FUZZERS = {
     "list_while": ("fuzz.list_while(fuzz.int_between(0, 50), 64, 12)", "list_int", [1, 3, 6, 40, 120], "dep"),
     "list_lenient": ("fuzz.list_of(fuzz.byte_or_zero(), 6)", "list_int", [1, 3, 100, 400], "dep lenient"),
     "list_such_that": ("fuzz.list_of(fuzz.such_that(fuzz.byte(), fn(b) { b % 2 == 0 }, 60), 6)", "list_int", [1, 3, 100, 400], "dep none_on_replay"),
-    "list_long": ("fuzz.list_of(fuzz.int_between(0, 1000), 20)", "list_int", [1, 12, 1000, 5000], "dep"),
+    "list_long": ("fuzz.list_of(fuzz.int_between(0, 1000), 20)", "list_int", [1, 12, 1000, 5000], "dep slow"),
     "list_const": ("fuzz.constant([1, 1, 2])", "list_int", [3, 4, 5], "const"),
     "list_crashing": ("fuzz.list_of(fuzz.crashing(240), 5)", "list_int", [2, 4, 200], "dep err"),
     # pairs, bool, option
@@ -133,6 +134,8 @@ def properties(tier, seed):
     rot = {}  # value type -> running index: kinds are dealt round-robin so that all are hit
     for fz in FUZZERS:
         specs = all_specs(fz)
+        if tier != "thorough" and "slow" in FUZZERS[fz][3]:
+            continue
         if tier == "thorough":
             out += [(fz, s) for s in specs]
             continue
@@ -155,12 +158,12 @@ def properties(tier, seed):
 def seeds(tier, seed):
     rng = Rng(seed, 17)
     fixed = [0, 1, 42, 0xFFFFFFFF]
-    n = 20 if tier == "quick" else 48
+    n = 20 if tier == "quick" else 24
     return fixed + [rng.below(1 << 32) for _ in range(n - len(fixed))]
 
 
 def max_successes(tier):
-    return [1, 10, 100] if tier == "quick" else [0, 1, 2, 10, 100, 250]
+    return [1, 10, 100] if tier == "quick" else [0, 1, 2, 10, 100, 150]
 
 
 if __name__ == "__main__":
